@@ -24,6 +24,36 @@ def _calls(net, src, tgt):
     return calls
 
 
+def _inter_calls(net, L1, L2):
+    """Cross / internal measures of InteractingNetworks for the node lists (results are indexed by list
+    position, so they are compared element by element when the lists are renumbered in the same order)."""
+    from pyunicorn.core import InteractingNetworks
+    from props import c11
+    if not L1 or not L2:
+        return []
+    inet = InteractingNetworks(adjacency=net.adjacency, directed=net.directed,
+                               node_weights=net.node_weights, silence_level=3)
+
+    def shaped(name, *lists):
+        val = getattr(inet, name)(*[list(l) for l in lists])
+        if hasattr(val, "toarray"):
+            val = val.toarray()
+        a = np.asarray(val)
+        if a.ndim == 0 or (a.ndim == 1 and a.shape[0] == inet.N and name.endswith("betweenness")):
+            return a
+        return np.concatenate([np.array(a.shape, dtype=float), a.astype(float).ravel()])
+
+    calls = []
+    for name in c11.PAIR:
+        node_indexed = name.endswith("betweenness")
+        calls.append(("I.%s(L1,L2)%s" % (name, "" if node_indexed else "~list"),
+                      lambda name=name: shaped(name, L1, L2)))
+    for name in c11.SINGLE:
+        node_indexed = name.endswith("betweenness")
+        calls.append(("I.%s(L1)%s" % (name, "" if node_indexed else "~list"), lambda name=name: shaped(name, L1)))
+    return calls
+
+
 def run_case(c):
     net0 = netcommon.build(c)
     names = netcommon.discover(net0)
@@ -34,13 +64,17 @@ def run_case(c):
     for new, old in enumerate(perm):
         inv[old] = new
     rec = dict(c)
-    rec["obs0"] = netcommon.observe_all(net0, names, calls=_calls(net0, src, tgt))
+    g1 = [v - 1 for v in c["g1"]]
+    g2 = [v - 1 for v in c["g2"]]
+    rec["obs0"] = netcommon.observe_all(net0, names, calls=_calls(net0, src, tgt) + _inter_calls(net0, g1, g2))
     net1 = net0.permuted_copy(perm)
     rec["permuted"] = {"A": enc.ints(net1.adjacency), "w": enc.ints(net1.node_weights)}
     # node lists are renumbered with the network and presented in another order
     src1 = [inv[j] for j in src][::-1]
     tgt1 = [inv[j] for j in tgt][::-1]
-    rec["obs1"] = netcommon.observe_all(net1, names, calls=_calls(net1, src1, tgt1))
+    # ... and, for the list-indexed measures of InteractingNetworks, in the same order
+    rec["obs1"] = netcommon.observe_all(net1, names, calls=_calls(net1, src1, tgt1) +
+                                        _inter_calls(net1, [inv[j] for j in g1], [inv[j] for j in g2]))
     return rec
 
 
@@ -67,5 +101,8 @@ def main(ctx):
 def replay(ctx, rep):
     rec = rep["record"]
     case = {k: v for k, v in rec.items() if k not in ("obs0", "obs1", "permuted")}
+    n = len(case["A"])
+    case.setdefault("g1", [k for k in range(1, n + 1) if k % 2 == 1])
+    case.setdefault("g2", [k for k in range(1, n + 1) if k % 2 == 0])
     recs = ctx.run_cases("props.c04.run_case", [case], jobs=1)
     ctx.validate("Val_C04", "Val_C04", recs, nontrivial=_nontrivial)
